@@ -742,6 +742,36 @@ theorem basis_column_index (ansi : Bool) (start num : Nat) (D : Rat) (g : AGrid)
   rw [basis_columns ansi start num D g hg, List.getElem?_map, basis_mode_index ansi start num j hj]
   rfl
 
+/-- **Field generators can be evaluated on any grids in any order** (`grid=None` forms; the code builds them without a
+cache): whatever sequence of calls `gens[j](grid_k)` on whatever well-formed grids, every call returns the plain mode on the
+grid it was handed. -/
+theorem generators_any_grid (D : Rat) : ∀ (calls : List (AGrid × Req)) (st : AState), (∀ c ∈ calls, c.1.WF) →
+    runGensA false D calls st = calls.map fun c => plainA D c.1 c.2
+  | [], _, _ => rfl
+  | (g, q) :: rest, st, h => by
+    simp only [runGensA, List.map_cons, Bool.false_eq_true, if_false]
+    congr 1
+    · have := acache_irrelevant D g (h _ List.mem_cons_self) [q]
+      simpa [resultsA, runA] using this
+    · exact generators_any_grid D rest _ (fun c hc => h c (List.mem_cons_of_mem _ hc))
+
+/-- generators sharing one cache are still right as long as they are all called on the same grid … -/
+theorem generators_shared_same_grid (D : Rat) (g : AGrid) (hg : g.WF) (reqs : List Req) :
+    runGensA true D (reqs.map fun q => (g, q)) {} = reqs.map (plainA D g) := by
+  rw [← acache_irrelevant D g hg]
+  unfold resultsA
+  generalize ({} : AState) = st
+  induction reqs generalizing st with
+  | nil => rfl
+  | cons q qs ih => simp only [List.map_cons, runGensA, runA, if_true]; rw [ih]
+
+/-- … but not on a second grid (defect D130, `make_zernike_basis(num, D, grid=None)` with the default `use_cache=True` handed
+one dictionary to all generators): the second grid silently gets the values of the first. -/
+theorem Old.generators_shared_cache_counterexample :
+    runGensA true 1 [(.pts [1/4] [(1, 0)], ⟨1, 1, false⟩), (.pts [1/2] [(1, 0)], ⟨1, 1, false⟩)] {} = [[1/2], [1/2]] ∧
+    runGensA false 1 [(.pts [1/4] [(1, 0)], ⟨1, 1, false⟩), (.pts [1/2] [(1, 0)], ⟨1, 1, false⟩)] {} = [[1/2], [1]] := by
+  decide +kernel
+
 /-- closures that bind the loop variable late all evaluate the last index (seeded defect class):
 already for two modes the first generator is wrong -/
 theorem Old.basis_late_binding_counterexample :
